@@ -85,6 +85,9 @@ type Obligation struct {
 	Model   string
 	Output  string
 	IsCover bool
+	relaxed bool
+	refute  *Term
+	Relaxed bool // counterexample found only after dropping quantified hypotheses
 }
 
 var explainMode bool
@@ -676,6 +679,51 @@ func (o *Obligation) conjuncts() []*Term {
 // Query renders the SMT-LIB text of an obligation (negated goal).
 func (o *Obligation) Query(getModel bool) string { return o.QueryCase(getModel, nil) }
 
+// refutations lists formulas each of which implies the negation of the goal,
+// obtained by splitting conjunctions under implications.
+func (o *Obligation) refutations() []*Term {
+	b := o.cx.w.b
+	var rec func(t *Term, depth int) []*Term
+	rec = func(t *Term, depth int) []*Term {
+		d := def(t)
+		switch {
+		case d.op == "and" && depth < 6:
+			var out []*Term
+			for _, a := range d.args {
+				out = append(out, rec(a, depth+1)...)
+			}
+			return out
+		case d.op == "=>" && len(d.args) == 2 && depth < 6:
+			var out []*Term
+			for _, r := range rec(d.args[1], depth+1) {
+				out = append(out, b.And(d.args[0], r))
+			}
+			return out
+		}
+		return []*Term{b.Not(t)}
+	}
+	rs := rec(o.goal, 0)
+	// quantifier-free candidates first
+	var qf, q []*Term
+	for _, r := range rs {
+		if hasQuantifier(r, map[int]bool{}) {
+			q = append(q, r)
+		} else {
+			qf = append(qf, r)
+		}
+	}
+	return append(qf, q...)
+}
+
+// QueryRelaxed drops the quantified hypotheses: a model of it is only a
+// candidate counterexample (it must be confirmed by replay on the real code).
+func (o *Obligation) QueryRelaxed(refutation *Term) string {
+	o.relaxed = true
+	o.refute = refutation
+	defer func() { o.relaxed = false; o.refute = nil }()
+	return o.QueryCase(true, nil)
+}
+
 func (o *Obligation) QueryCase(getModel bool, hyp *Term) string {
 	cx := o.cx
 	cx.w.mu.Lock()
@@ -689,7 +737,7 @@ func (o *Obligation) QueryCase(getModel bool, hyp *Term) string {
 			w.b.Definitions(di, a.mark, &body)
 			di = a.mark
 		}
-		if o.IsCover && hasQuantifier(a.t, map[int]bool{}) {
+		if (o.IsCover || o.relaxed) && hasQuantifier(a.t, map[int]bool{}) {
 			continue // covers check the quantifier-free part of the hypotheses
 		}
 		body.WriteString("(assert ")
@@ -699,7 +747,7 @@ func (o *Obligation) QueryCase(getModel bool, hyp *Term) string {
 	if o.mark > di {
 		w.b.Definitions(di, o.mark, &body)
 	}
-	if !o.IsCover {
+	if !o.IsCover && !o.relaxed {
 		body.WriteString(cx.axioms(o.mark))
 	}
 	if hyp != nil {
@@ -712,6 +760,10 @@ func (o *Obligation) QueryCase(getModel bool, hyp *Term) string {
 	body.WriteString(")\n")
 	if o.IsCover {
 		// cover: reach must be satisfiable
+	} else if o.refute != nil {
+		body.WriteString("(assert ")
+		o.refute.write(&body)
+		body.WriteString(")\n")
 	} else {
 		body.WriteString("(assert (not ")
 		o.goal.write(&body)
